@@ -36,12 +36,23 @@ impl<S: Storage> TableScanExecutor<S> {
             col_idx.push(StorageColumnRef::RowHandler);
         }
 
+        // The optimizer treats a scan of the on-disk engine that includes the primary key as
+        // ordered by that key (`analyze_order`), so ask the storage for an ordered scan then:
+        // otherwise row-sets are simply concatenated and the rows come back unordered.
+        let sorted = self.storage.as_disk().is_some() && {
+            let pk = table.ordered_pk_ids();
+            !pk.is_empty()
+                && (pk.iter()).all(|id| col_idx.contains(&StorageColumnRef::Idx(*id)))
+        };
+
         let txn = table.read().await?;
 
         let mut it = txn
             .scan(
                 &col_idx,
-                ScanOptions::default().with_filter_opt(self.filter),
+                ScanOptions::default()
+                    .with_filter_opt(self.filter)
+                    .with_sorted(sorted),
             )
             .await?;
 
